@@ -120,6 +120,11 @@ func ParseContractFile(path, pkgPath string) ([]*Contract, error) {
 		lineNo := i + 1
 		kw, rest := splitWord(body)
 		switch kw {
+		case "assume-nonnil-dynamic":
+			// a pointer type whose typed nil never occurs inside an interface value (stated assumption)
+			out = append(out, &Contract{Name: "$nonnil", PkgPath: strings.TrimSpace(rest), File: path, Line: lineNo})
+			cur = nil
+			continue
 		case "invariant":
 			// package invariant: assumed at every function entry and after every call, checked at every return
 			cl, err := parseClause(path, lineNo, rest)
@@ -240,6 +245,11 @@ func ParseContractFile(path, pkgPath string) ([]*Contract, error) {
 				return nil, err
 			}
 			switch k {
+			case "assume-nonnil-dynamic":
+				// a pointer type whose typed nil never occurs inside an interface value (stated assumption)
+				out = append(out, &Contract{Name: "$nonnil", PkgPath: strings.TrimSpace(rest), File: path, Line: lineNo})
+				cur = nil
+				continue
 			case "invariant":
 				ls.Invariants = append(ls.Invariants, cl)
 			case "decreases":
